@@ -496,6 +496,9 @@ class Interp(Ops):
                 lo, hi, stepv, getter = it.iter_protocol(self)
                 if concrete_int(stepv) == 1 and (concrete_int(lo) is None or concrete_int(hi) is None):
                     return SymGen(lo, hi, getter, node.generators[0].target, node.elt, self.frame)
+            if isinstance(it, SymList):
+                arr0 = it.arr
+                return SymGen(0, it.n, (lambda i: z3.Select(arr0, i)), node.generators[0].target, node.elt, self.frame)
         return PyList(self.comprehension(node.elt, node.generators, node))
 
     def _repeat_comprehension(self, node):
